@@ -19,6 +19,7 @@ import (
 	"context"
 	"errors"
 	"fmt"
+	"math"
 	"math/rand/v2"
 	"os"
 	"testing"
@@ -90,6 +91,7 @@ type cdata struct {
 }
 
 type sys struct {
+	started bool   // the first event has been executed (the generation counter is preset just before it)
 	nclear  int    // clearing calls so far: they alternate between SetContext(nil) and ClearContext()
 	nctx    int    // context-taking consumer calls so far (event 10): the n-th one gets the context flavour hctx.Flavour(n)
 	curCtx  uint64 // the root last installed (0 none)
@@ -497,6 +499,21 @@ func (s *sys) pendingVirt() int {
 
 func (s *sys) exec(ev []uint64) (obs []uint64, ok bool) {
 	var rets []uint64
+	if !s.started {
+		// The resolver generation counter is a uint32 that wraps around; which generation is current is decided by
+		// comparing it.  Three histories in four start 1, 2 or 4 increments below the wrap-around (chosen from the first
+		// event, so that a replay reproduces it); the model's generations are unbounded, and a correct implementation
+		// cannot tell the difference.
+		s.started = true
+		var sum uint64
+		for _, x := range ev {
+			sum += x
+		}
+		if off := [4]uint32{0, 0, 1, 3}[sum%4]; sum%4 != 0 {
+			s.rc.VerifSetNonce(math.MaxUint32 - off)
+			s.w.Count("cfg.nonce_starts_below_wraparound", 1)
+		}
+	}
 	if pv := s.pendingVirt(); pv >= 0 && !(ev[0] == 15 && int(ev[1]) < len(s.cons) && s.cons[ev[1]].Data.(*cdata).virt) {
 		// this history needs the schedule point the code does not have
 		s.w.Count("hook.site5_missing_history_cut", 1)
